@@ -245,31 +245,87 @@ func (t *tr) emitFuncs(b *strings.Builder) {
 			})
 		}
 	}
-	// topological order (callees first); recursion is outside the subset
-	var order []string
-	state := map[string]int{}
-	var visit func(f string)
-	visit = func(f string) {
-		switch state[f] {
-		case 1:
-			panic(unsupported{"recursive function " + f + " is outside the translated subset"})
-		case 2:
-			return
-		}
-		state[f] = 1
+	// strongly connected components of the call graph (Tarjan); a recursive component is emitted as
+	// one mutual Fixpoint on fuel, callees first otherwise
+	index := 0
+	idx := map[string]int{}
+	low := map[string]int{}
+	onStack := map[string]bool{}
+	var stack []string
+	var comps [][]string
+	var strong func(f string)
+	strong = func(f string) {
+		index++
+		idx[f], low[f] = index, index
+		stack = append(stack, f)
+		onStack[f] = true
 		cs := append([]string(nil), calls[f]...)
 		sort.Strings(cs)
 		for _, c := range cs {
-			visit(c)
+			if idx[c] == 0 {
+				strong(c)
+				if low[c] < low[f] {
+					low[f] = low[c]
+				}
+			} else if onStack[c] && idx[c] < low[f] {
+				low[f] = idx[c]
+			}
 		}
-		state[f] = 2
-		order = append(order, f)
+		if low[f] == idx[f] {
+			var comp []string
+			for {
+				n := stack[len(stack)-1]
+				stack = stack[:len(stack)-1]
+				onStack[n] = false
+				comp = append(comp, n)
+				if n == f {
+					break
+				}
+			}
+			sort.Strings(comp)
+			comps = append(comps, comp)
+		}
 	}
 	for _, f := range t.u.Funcs {
-		visit(f)
+		if idx[f] == 0 {
+			strong(f)
+		}
 	}
-	for _, f := range order {
-		t.emitFunc(b, f)
+	t.recGroup = map[string]bool{}
+	for _, comp := range comps {
+		rec := len(comp) > 1
+		if !rec {
+			for _, c := range calls[comp[0]] {
+				if c == comp[0] {
+					rec = true
+				}
+			}
+		}
+		if rec {
+			for _, f := range comp {
+				t.recGroup[f] = true
+				t.fuelFns[f] = true
+			}
+		}
+	}
+	// recursion makes callers fuel functions too
+	for changed := true; changed; {
+		changed = false
+		for f, cs := range calls {
+			for _, c := range cs {
+				if t.fuelFns[c] && !t.fuelFns[f] {
+					t.fuelFns[f] = true
+					changed = true
+				}
+			}
+		}
+	}
+	for _, comp := range comps {
+		if t.recGroup[comp[0]] {
+			t.emitRecGroup(b, comp)
+			continue
+		}
+		t.emitFunc(b, comp[0])
 	}
 }
 
@@ -363,6 +419,7 @@ func (t *tr) calleeKey(ce *ast.CallExpr) string {
 // one function
 
 type fnCtx struct {
+	fuelVar  string // name of the fuel variable visible in the body ("fuel", or "fuel'" inside a recursive group)
 	key      string
 	fd       *ast.FuncDecl
 	fuel     bool
@@ -373,17 +430,52 @@ type fnCtx struct {
 }
 
 func (t *tr) emitFunc(b *strings.Builder, key string) {
+	params, resType, body := t.funcParts(key, "fuel")
+	fd := t.funcs[key]
+	pos := t.fset.Position(fd.Pos())
+	fmt.Fprintf(b, "(* %s:%d  func %s *)\n", shortPath(pos.Filename), pos.Line, key)
+	fmt.Fprintf(b, "Definition %s %s : %s :=\n  %s.\n\n", t.cname(key), strings.Join(params, " "), resType, body)
+}
+
+// emitRecGroup emits a (mutually) recursive group as one Fixpoint on fuel.
+func (t *tr) emitRecGroup(b *strings.Builder, comp []string) {
+	for i, key := range comp {
+		params, resType, body := t.funcParts(key, "fuel'")
+		fd := t.funcs[key]
+		pos := t.fset.Position(fd.Pos())
+		kw := "Fixpoint"
+		if i > 0 {
+			kw = "with"
+		}
+		fmt.Fprintf(b, "(* %s:%d  func %s (recursive: fuel decreases at every call inside the group) *)\n", shortPath(pos.Filename), pos.Line, key)
+		fmt.Fprintf(b, "%s %s %s {struct fuel} : %s :=\n  match fuel with\n  | O => None\n  | S fuel' =>\n  %s\n  end", kw, t.cname(key), strings.Join(params, " "), resType, body)
+		if i == len(comp)-1 {
+			b.WriteString(".\n\n")
+		} else {
+			b.WriteString("\n")
+		}
+	}
+}
+
+func (t *tr) funcParts(key string, fuelVar string) (params []string, resType string, body string) {
 	fd := t.funcs[key]
 	t.names = map[types.Object]string{}
 	t.used = map[string]bool{}
 	t.knum = 0
 	t.labels = map[string]string{}
+	t.gotoLabels = map[string]bool{}
+	ast.Inspect(fd.Body, func(n ast.Node) bool {
+		if bs, ok := n.(*ast.BranchStmt); ok && bs.Tok == token.GOTO && bs.Label != nil {
+			t.gotoLabels[bs.Label.Name] = true
+		}
+		return true
+	})
 	t.cur = key
-	c := &fnCtx{key: key, fd: fd, fuel: t.fuelFns[key]}
-	var params []string
+	c := &fnCtx{key: key, fd: fd, fuel: t.fuelFns[key], fuelVar: fuelVar}
 	if c.fuel {
 		params = append(params, "(fuel : nat)")
 		t.used["fuel"] = true
+		t.used["fuel'"] = true
 	}
 	if fd.Recv != nil {
 		for _, fl := range fd.Recv.List {
@@ -436,7 +528,6 @@ func (t *tr) emitFunc(b *strings.Builder, key string) {
 	if c.fuel {
 		c.resType = "(option " + c.resType + ")"
 	}
-	body := ""
 	// named results start at their zero values
 	pre := ""
 	for _, r := range c.resNames {
@@ -449,9 +540,7 @@ func (t *tr) emitFunc(b *strings.Builder, key string) {
 		end = t.retExpr(c, nil, fd.Body)
 	}
 	body = pre + t.block(c, fd.Body.List, end, 1)
-	pos := t.fset.Position(fd.Pos())
-	fmt.Fprintf(b, "(* %s:%d  func %s *)\n", shortPath(pos.Filename), pos.Line, key)
-	fmt.Fprintf(b, "Definition %s %s : %s :=\n  %s.\n\n", t.cname(key), strings.Join(params, " "), c.resType, body)
+	return params, c.resType, body
 }
 
 func shortPath(p string) string {
@@ -599,9 +688,12 @@ func terminates(s ast.Stmt) bool {
 }
 
 type loopCtx struct {
-	brk  string // expression for break
-	cont string // expression for continue
+	brk   string // expression for break
+	cont  string // expression for continue
+	label string
 }
+
+var pendingLoopLabel string
 
 var loops []loopCtx
 
@@ -640,7 +732,7 @@ func (t *tr) block(c *fnCtx, stmts []ast.Stmt, k string, depth int) string {
 	// local continuation first, then translate the statements before it with that continuation
 	for i, s := range stmts {
 		ls, ok := s.(*ast.LabeledStmt)
-		if !ok || t.labels[ls.Label.Name] != "" {
+		if !ok || t.labels[ls.Label.Name] != "" || !t.gotoLabels[ls.Label.Name] {
 			continue
 		}
 		if i == 0 {
@@ -782,9 +874,31 @@ func (t *tr) block(c *fnCtx, stmts []ast.Stmt, k string, depth int) string {
 	case *ast.ForStmt:
 		return t.forStmt(c, x, stmts[1:], k, depth)
 
+	case *ast.LabeledStmt:
+		// a label on a loop (targets of goto were handled above)
+		switch x.Stmt.(type) {
+		case *ast.ForStmt, *ast.RangeStmt:
+			pendingLoopLabel = x.Label.Name
+			return t.block(c, append([]ast.Stmt{x.Stmt}, stmts[1:]...), k, depth)
+		}
+		if t.labels[x.Label.Name] != "" {
+			return t.block(c, append([]ast.Stmt{x.Stmt}, stmts[1:]...), k, depth)
+		}
+		t.fail(x, "label %s", x.Label.Name)
+
 	case *ast.BranchStmt:
 		if x.Tok == token.GOTO && x.Label != nil && t.labels[x.Label.Name] != "" {
 			return t.labels[x.Label.Name]
+		}
+		if x.Label != nil && (x.Tok == token.BREAK || x.Tok == token.CONTINUE) {
+			for i := len(loops) - 1; i >= 0; i-- {
+				if loops[i].label == x.Label.Name {
+					if x.Tok == token.BREAK {
+						return loops[i].brk
+					}
+					return loops[i].cont
+				}
+			}
 		}
 		if len(loops) == 0 || x.Label != nil {
 			t.fail(x, "branch statement %v", x.Tok)
@@ -829,8 +943,38 @@ var assignOps = map[token.Token]token.Token{
 	token.SHL_ASSIGN: token.SHL, token.SHR_ASSIGN: token.SHR, token.AND_NOT_ASSIGN: token.AND_NOT,
 }
 
+// unwrapLit replaces a composite literal of a struct type that the configuration maps to one of its
+// fields ("lit:<type>": "<field>") by that field's value expression.
+func (t *tr) unwrapLit(e ast.Expr) ast.Expr {
+	cl, ok := e.(*ast.CompositeLit)
+	if !ok {
+		return e
+	}
+	field, ok := t.u.Extern["lit:"+exprString(cl.Type)]
+	if !ok {
+		return e
+	}
+	for _, el := range cl.Elts {
+		if kv, ok := el.(*ast.KeyValueExpr); ok {
+			if id, ok := kv.Key.(*ast.Ident); ok && id.Name == field {
+				return kv.Value
+			}
+		}
+	}
+	t.fail(e, "literal of %s without field %s", exprString(cl.Type), field)
+	return e
+}
+
 func (t *tr) assign(c *fnCtx, x *ast.AssignStmt, depth int) string {
 	nl := "\n" + ind(depth)
+	for i := range x.Rhs {
+		if u := t.unwrapLit(x.Rhs[i]); u != x.Rhs[i] {
+			y := *x
+			y.Rhs = append([]ast.Expr(nil), x.Rhs...)
+			y.Rhs[i] = u
+			x = &y
+		}
+	}
 	if op, ok := assignOps[x.Tok]; ok {
 		obj := t.lhsObj(x.Lhs[0])
 		name := t.varName(obj)
@@ -962,7 +1106,7 @@ func (t *tr) callStmtPrefix(c *fnCtx, ce *ast.CallExpr, lhs func() []string, dep
 		if !c.fuel {
 			t.fail(ce, "fuel function called from a fuel-free function")
 		}
-		args = append(args, "fuel")
+		args = append(args, c.fuelVar)
 	}
 	if sel, ok := ce.Fun.(*ast.SelectorExpr); ok && fd.Recv != nil && len(fd.Recv.List[0].Names) == 1 && fd.Recv.List[0].Names[0].Name != "_" {
 		args = append(args, t.atom(sel.X))
@@ -1297,7 +1441,7 @@ func (t *tr) caseBody(c *fnCtx, body []ast.Stmt, k string, depth int) string {
 			case *ast.ForStmt, *ast.RangeStmt, *ast.SwitchStmt:
 				return false
 			case *ast.BranchStmt:
-				if y.Tok == token.BREAK {
+				if y.Tok == token.BREAK && y.Label == nil {
 					t.fail(y, "break inside switch")
 				}
 			}
@@ -1311,6 +1455,8 @@ func (t *tr) caseBody(c *fnCtx, body []ast.Stmt, k string, depth int) string {
 
 func (t *tr) rangeStmt(c *fnCtx, x *ast.RangeStmt, after []ast.Stmt, k string, depth int) string {
 	nl := "\n" + ind(depth)
+	lbl := pendingLoopLabel
+	pendingLoopLabel = ""
 	if !isBytes(t.info.TypeOf(x.X)) && t.coqType(t.info.TypeOf(x.X)) != "(list Z)" {
 		t.fail(x, "range over %s", t.info.TypeOf(x.X))
 	}
@@ -1341,7 +1487,7 @@ func (t *tr) rangeStmt(c *fnCtx, x *ast.RangeStmt, after []ast.Stmt, k string, d
 		}
 	}
 	cont := fmt.Sprintf("%s %s (%s + 1) %s", loop, tail, i, strings.Join(as, " "))
-	loops = append(loops, loopCtx{brk: brk, cont: cont})
+	loops = append(loops, loopCtx{brk: brk, cont: cont, label: lbl})
 	body := t.block(c, x.Body.List, cont, depth+2)
 	loops = loops[:len(loops)-1]
 	src := t.atom(x.X)
@@ -1351,6 +1497,8 @@ func (t *tr) rangeStmt(c *fnCtx, x *ast.RangeStmt, after []ast.Stmt, k string, d
 
 func (t *tr) forStmt(c *fnCtx, x *ast.ForStmt, after []ast.Stmt, k string, depth int) string {
 	nl := "\n" + ind(depth)
+	lbl := pendingLoopLabel
+	pendingLoopLabel = ""
 	if !c.fuel {
 		t.fail(x, "for loop in a function not marked for fuel")
 	}
@@ -1364,7 +1512,12 @@ func (t *tr) forStmt(c *fnCtx, x *ast.ForStmt, after []ast.Stmt, k string, depth
 	}
 	vars := t.assignedOuter(nodes...)
 	// variables declared by the init statement are loop-carried when assigned in body/post
-	afterExpr := t.block(c, after, k, depth+1)
+	afterExpr := "None (* unreachable: the loop has no exit but return *)"
+	if len(after) > 0 || k != "" {
+		afterExpr = t.block(c, after, k, depth+1)
+	} else if x.Cond != nil {
+		t.fail(x, "control reaches the end of the function after a conditional loop")
+	}
 	prefix, brk := t.join(c, vars, afterExpr, depth)
 	loop := t.fresh("loop")
 	f := t.fresh("f")
@@ -1379,15 +1532,15 @@ func (t *tr) forStmt(c *fnCtx, x *ast.ForStmt, after []ast.Stmt, k string, depth
 	if x.Post != nil {
 		cont = strings.TrimSuffix(t.block(c, []ast.Stmt{x.Post}, "\x00", depth+2), "\x00") + next
 	}
-	loops = append(loops, loopCtx{brk: brk, cont: cont})
+	loops = append(loops, loopCtx{brk: brk, cont: cont, label: lbl})
 	body := t.block(c, x.Body.List, cont, depth+2)
 	loops = loops[:len(loops)-1]
 	cond := "true"
 	if x.Cond != nil {
 		cond = t.expr(x.Cond)
 	}
-	return fmt.Sprintf("%s%s(fix %s (%s : nat) %s {struct %s} : %s :=%s  match %s with%s  | O => None%s  | S %s =>%s    if %s then%s      (%s)%s    else %s%s  end) fuel %s",
-		init, prefix, loop, f, strings.Join(ps, " "), f, c.resType, nl, f, nl, nl, f2, nl, cond, nl, body, nl, brk, nl, strings.Join(as, " "))
+	return fmt.Sprintf("%s%s(fix %s (%s : nat) %s {struct %s} : %s :=%s  match %s with%s  | O => None%s  | S %s =>%s    if %s then%s      (%s)%s    else %s%s  end) %s %s",
+		init, prefix, loop, f, strings.Join(ps, " "), f, c.resType, nl, f, nl, nl, f2, nl, cond, nl, body, nl, brk, nl, c.fuelVar, strings.Join(as, " "))
 }
 
 // ---------------------------------------------------------------------------------------------
@@ -1594,8 +1747,16 @@ func (t *tr) expr(e ast.Expr) string {
 		}
 		t.fail(x, "selector %s", exprString(x))
 	case *ast.CompositeLit:
+		if u := t.unwrapLit(x); u != ast.Expr(x) {
+			return t.expr(u)
+		}
 		if ext, ok := t.u.Extern[exprString(x)]; ok {
 			return ext
+		}
+		if at, ok := t.info.TypeOf(x).Underlying().(*types.Array); ok && len(x.Elts) == 0 {
+			if _, _, _, isInt := intKind(at.Elem()); isInt {
+				return fmt.Sprintf("(repeat 0 %d)", at.Len())
+			}
 		}
 		t.fail(x, "composite literal %s", exprString(x))
 	}
@@ -1769,6 +1930,9 @@ func (t *tr) call(x *ast.CallExpr) string {
 			}
 			t.fail(x, "builtin %s", id.Name)
 		}
+	}
+	if ext, ok := t.u.Extern["const:"+exprString(x.Fun)]; ok {
+		return ext
 	}
 	if kk := t.calleeKey(x); kk != "" {
 		if !t.want[kk] {
